@@ -90,7 +90,17 @@ class Analysis:
             return [r[1], r[2]]
         if r[0] == 'StE':
             return [r[1]]
+        if r[0] == 'LF':
+            return [r[1], r[2]]
         return [r[1], r[2]]
+
+    def entry_atoms(self, tg):
+        fl = self.flows.get(tg.sig)
+        if fl is None:
+            return frozenset()
+        if not hasattr(fl, '_entry_atoms'):
+            fl._entry_atoms = fl.entry_world().frozen()
+        return fl._entry_atoms
 
     def strict_reads(self, fl):
         return False
@@ -184,6 +194,9 @@ class Analysis:
                         vv = fld
                     if vv is not None and vv not in iface:
                         ok = False
+                if x[0] in ('Holds0', 'Val0', 'Failed0'):
+                    keep.add(x)
+                    continue
                 if ok and x[0] not in ('CallRet', 'Untested', 'FC', 'IR', 'LockOf', 'Into'):
                     keep.add(x)
             rc2 = rc
